@@ -31,6 +31,8 @@ pub struct RState {
     pub fdc: Vec<(FdOp, Vec<T>)>,
     pub zc: Vec<(ZOp, T, T, T)>,
     pub tags: Vec<u32>,
+    /// number of successful `==` goals on this branch (for the C22 process_extension count)
+    pub unifs: u32,
 }
 
 /// One reference answer.
@@ -41,6 +43,7 @@ pub struct RAnswer {
     /// residual disequalities: each is a list of (var, term) bindings that must not all hold
     pub cons: Vec<Vec<(V, T)>>,
     pub tags: Vec<u32>,
+    pub unifs: u32,
 }
 
 #[derive(Debug, Clone, PartialEq, Eq)]
@@ -282,6 +285,8 @@ impl<'a> Ref<'a> {
             G::Eq(a, b) => {
                 let a = self.inst(env, a);
                 let b = self.inst(env, b);
+                let mut st = st;
+                st.unifs += 1;
                 one(self.unify(st, &a, &b))
             }
             G::Diseq(a, b) => {
@@ -785,5 +790,5 @@ pub fn answer_of(st: &RState, query: &T) -> RAnswer {
         }
     }
     cons.sort();
-    RAnswer { tuple, cons, tags: st.tags.clone() }
+    RAnswer { tuple, cons, tags: st.tags.clone(), unifs: st.unifs }
 }
